@@ -432,6 +432,15 @@ def _classify_write(prog, f, n, R, toupper_ok, ptr=None):
         import codec_rules as _CRn
         for w in widths:
             wn = {tuple(_CRn.upper_len_norm(prog, a_) for a_ in mono): c_ for mono, c_ in w.items()} if isinstance(w, dict) else w
+            # min(size, K): never more than the string holds
+            if isinstance(w, dict) and len(w) == 1 and list(w.values()) == [1] and len(list(w.keys())[0]) == 1:
+                a1 = list(w.keys())[0][0]
+                mm_ = re.match(r'^std::min(?:<[^>]*>)?\((.*)\)$', a1)
+                if mm_:
+                    parts_ = [x_.strip() for x_ in re.split(r',(?![^()]*\))', mm_.group(1))]
+                    parts_ = [re.sub(r'^\((?:unsigned long|size_t|unsigned int|int|long)\)', '', x_) for x_ in parts_]
+                    if atom in parts_ and len(parts_) == 2:
+                        continue
             if not P.equal(w, {(atom,): 1}) and not P.equal(wn, {(_CRn.upper_len_norm(prog, atom),): 1}):
                 return 'violation', 'string', 'byte count %s is not the size of the string being written (%s): bytes past its end would be emitted' % (P.show(w), atom)
         return 'ok', 'string', 'exactly %s characters' % atom
